@@ -1,6 +1,7 @@
 (* C04 — GROUP BY partitions each window's rows by the grouping key tuple.
    Only statements, each closed by [exact]; proofs live in Proofs/GroupKeyProofs.v. *)
 From SV Require Import Model.GroupKey Proofs.GroupKeyProofs.
+From SV Require Import Model.GroupNames Spec.GroupNamesSpec Proofs.GroupNamesProofs.
 
 (* the length-prefixed key encoder of the aggregator after the repair is injective on tuples of grouping values -- any numbers of columns, any bytes in the
    strings (separators, NUL, empty), NULL, numbers, bools *)
@@ -80,6 +81,92 @@ Theorem C04_reported_under_names : forall names t i n,
   klookup n (kreport names t) = nth_error t i.
 Proof. exact report_lookup. Qed.
 Print Assumptions C04_reported_under_names.
+
+(* ---- output naming of the grouping columns (Model/GroupNames.v) -----------------------------------
+   the name of a grouping column: its AS alias if the SELECT list has one for that very text ... *)
+Theorem C04_out_name_alias : forall sel quals gf a, kn_alias sel gf = Some a -> kn_out sel quals gf = a.
+Proof. exact kn_out_alias. Qed.
+Print Assumptions C04_out_name_alias.
+
+(* (the last SELECT item `gf AS a` with a non-empty alias is the one that counts) *)
+Theorem C04_alias_of_selected_item : forall sel gf a,
+  a <> [] -> (forall x b, In (x, b) sel -> x <> gf) -> forall pre, kn_alias (pre ++ (gf, a) :: sel) gf = Some a.
+Proof. exact kn_alias_last. Qed.
+Print Assumptions C04_alias_of_selected_item.
+
+(* ... otherwise the text itself, without its qualifier if that is the FROM alias or a JOIN alias
+   (m.location -> location); a foreign qualifier and an unqualified text stay as written *)
+Theorem C04_out_name_qualified : forall sel quals q rest,
+  kn_alias sel (q ++ k_dot :: rest) = None -> q <> [] -> ~ In k_dot q -> In q quals ->
+  kn_out sel quals (q ++ k_dot :: rest) = rest.
+Proof. exact kn_out_qualified. Qed.
+Print Assumptions C04_out_name_qualified.
+
+Theorem C04_out_name_foreign_qualifier : forall sel quals q rest,
+  kn_alias sel (q ++ k_dot :: rest) = None -> ~ In k_dot q -> ~ In q quals ->
+  kn_out sel quals (q ++ k_dot :: rest) = q ++ k_dot :: rest.
+Proof. exact kn_out_foreign_qualifier. Qed.
+Print Assumptions C04_out_name_foreign_qualifier.
+
+Theorem C04_out_name_plain : forall sel quals gf,
+  kn_alias sel gf = None -> ~ In k_dot gf -> kn_out sel quals gf = gf.
+Proof. exact kn_out_plain. Qed.
+Print Assumptions C04_out_name_plain.
+
+(* projectGroupColumns on the row the aggregator emits (grouping values under the GROUP BY texts,
+   aggregates under their aliases): for ANY values -- the type of values is a parameter, so NULL is
+   just one of them -- the row that reaches the sink holds the i-th grouping value under the i-th output
+   name, every aggregate under its alias, and no other column. Conditions: GROUP BY texts distinct,
+   output names distinct, aggregate aliases apart from both, and an output name that is also a GROUP BY
+   text belongs to that very column. *)
+Theorem C04_projected_row : forall (A : Type) gfs outs (t : list A) aggs,
+  kn_compatible gfs outs (map fst aggs) -> length t = length gfs ->
+  let row := kn_result gfs outs t aggs in
+  (forall i o, nth_error outs i = Some o -> kn_get o row = nth_error t i)
+  /\ (forall a, In a (map fst aggs) -> kn_get a row = kn_get a aggs)
+  /\ (forall n, kn_get n row <> None -> In n outs \/ In n (map fst aggs)).
+Proof. exact @project_correct. Qed.
+Print Assumptions C04_projected_row.
+
+(* ... hence every model row passes the executable name-set checker the harness applies to the rows
+   of the implementation (system columns allowed, not demanded) *)
+Theorem C04_projected_row_passes_checker : forall (A : Type) gfs outs (t : list A) aggs sys,
+  kn_compatible gfs outs (map fst aggs) -> length t = length gfs ->
+  chk_row_names outs (map fst aggs) sys (map fst (kn_result gfs outs t aggs)) = None.
+Proof. exact @project_passes_checker. Qed.
+Print Assumptions C04_projected_row_passes_checker.
+
+(* the last condition is needed and NOT checked by the code (finding F-C04-alias-clash in known_findings.d/C04.jsonl): with an alias that is the
+   GROUP BY text of another column (SELECT k1 AS k2, k2 AS z .. GROUP BY k1, k2) the emitted row is
+   {z: v2}: the first grouping value is lost, its column missing *)
+Theorem C04_alias_onto_group_column_refuted :
+  exists gfs outs (t : list kvalue),
+    length outs = length gfs /\ length t = length gfs /\ NoDup gfs /\ NoDup outs
+    /\ chk_row_names outs [] [] (map fst (kn_result gfs outs t [])) = Some NColumnMissing
+    /\ kn_tuple outs (kn_result gfs outs t []) = [None; nth_error t 1].
+Proof. exact alias_onto_group_column_refuted. Qed.
+Print Assumptions C04_alias_onto_group_column_refuted.
+
+(* non-vacuity: SELECT s.k1 AS dev, m.loc, upper(k3) AS u .. FROM stream s LEFT JOIN meta m .. GROUP BY
+   s.k1, m.loc, upper(k3): names dev, loc, u; the NULL group {NULL, NULL, NULL} is reported under them *)
+Example C04_names_example :
+  let sel := [([115; 46; 107; 49], [100; 101; 118]); ([109; 46; 108; 111; 99], []);
+              ([117; 40; 107; 51; 41], [117])]%N in
+  let gfs := [[115; 46; 107; 49]; [109; 46; 108; 111; 99]; [117; 40; 107; 51; 41]]%N in
+  let outs := kn_outs sel [[115]; [109]]%N gfs in
+  outs = [[100; 101; 118]; [108; 111; 99]; [117]]%N
+  /\ kn_compatible gfs outs [[99]]%N
+  /\ kn_tuple outs (kn_result gfs outs [KNull; KNull; KNull] [([99]%N, KInt 2)]) = [Some KNull; Some KNull; Some KNull].
+Proof.
+  split; [reflexivity|]. split; [|reflexivity].
+  unfold kn_compatible. simpl.
+  split; [reflexivity|].
+  split; [repeat constructor; simpl; intuition discriminate|].
+  split; [repeat constructor; simpl; intuition discriminate|].
+  split.
+  - intros g o [H|[H|[H|[]]]] Hin; injection H as <- <-; destruct Hin as [E|[E|[E|[]]]]; discriminate E.
+  - intros a [<-|[]]. split; intuition discriminate.
+Qed.
 
 (* history (F2): the encoders as written before the fix were not injective *)
 Theorem C04_aggregator_old_sep_refuted :
